@@ -131,7 +131,9 @@ func solveAutoOnly(vc *VC, autos []*Obl, opts SolveOpts) {
 		if o.Status == "" {
 			o.Status = "unknown"
 		}
-		if o.Status != "unsat" && o.Status != "sat" {
+		if o.Status != "unsat" && o.Status != "sat" && strings.Contains(o.AutoDesc, ":frame(") {
+			// frame candidates are what the frame obligations at the returns rest on; the other candidates (bounds
+			// of counters) are covered by the function-level retry in verifyFunc
 			undecided = append(undecided, o)
 		}
 	}
